@@ -181,18 +181,26 @@ class Rerr:
                 if targs[0].uid in self.intvalued:
                     self.intvalued.add(t.uid)
                 if dt in (tm.E4M3, tm.E5M2):
+                    # contract of the (PyTorch) cast kernel: the result is a nearest grid point of its input:
+                    # within half an ulp of the input's binade, same sign, saturating at fmax
                     v = self.fresh("f8")
                     self.f8casts.append((x, v, dt, t))
                     f = tm.FMT[dt]
-                    # generic contract: relative error 2^-p, absolute error half a subnormal quantum, |v| <= max(|x|.., fmax)
-                    if not self.ideal:
-                        e = self.fresh("e")
-                        d = self.fresh("d")
-                        u = rv(Fraction(1, 2 ** f["p"]))
-                        eta = rv(Fraction(2) ** (f["emin"] - f["p"]))
-                        self.cons += [e <= u, e >= -u, d <= eta, d >= -eta, v == x * (1 + e) + d]
-                    else:
+                    if self.ideal:
                         self.cons.append(v == x)
+                        return v
+                    ax = zabs(x)
+                    p, emin, emax = f["p"], f["emin"], f["emax"]
+                    k = z3.ToReal(self.fresh("k", "int"))  # the significand: v is a grid point
+                    self.cons.append(z3.Implies(ax < rv(Fraction(2) ** emin), v == k * rv(Fraction(2) ** (emin - p + 1))))
+                    for E in range(emin, emax + 1):
+                        self.cons.append(z3.Implies(z3.And(ax >= rv(Fraction(2) ** E), ax < rv(Fraction(2) ** (E + 1))), v == k * rv(Fraction(2) ** (E - p + 1))))
+                    self.cons.append(z3.Implies(x >= 0, v >= 0))
+                    self.cons.append(z3.Implies(x <= 0, v <= 0))
+                    self.cons.append(z3.Implies(ax < rv(Fraction(2) ** emin), zabs(v - x) <= rv(Fraction(2) ** (emin - p))))
+                    for E in range(emin, emax + 1):
+                        self.cons.append(z3.Implies(z3.And(ax >= rv(Fraction(2) ** E), ax < rv(Fraction(2) ** (E + 1))), z3.And(zabs(v - x) <= rv(Fraction(2) ** (E - p)), zabs(v) >= rv(Fraction(2) ** E), zabs(v) <= rv(Fraction(2) ** (E + 1)))))
+                    self.cons.append(zabs(v) <= rv(f["fmax"]))
                     self.oblig.append(("f8range", z3.And(x <= rv(f["fmax"]), x >= rv(-f["fmax"])), t))
                     return v
                 if tm._exact_upcast(src, dt) or (targs[0].uid in self.intvalued and dt not in (tm.E4M3, tm.E5M2)):
